@@ -1,12 +1,12 @@
 // A-enc discharge (arithmetic half): `XlsEncoding::decode_to` on the REAL function with the foreign decoder
-// `encoding_rs::Encoding::decode` stubbed by a recorder. Proved: the returned pair (l, ub), and the exact byte string handed to
+// `encoding_rs::Encoding::decode_without_bom_handling` stubbed by a recorder. Proved: the returned pair (l, ub), and the exact byte string handed to
 // the decoder (prefix of the stream for raw/16-bit storage, zero-extended prefix for 8-bit compressed storage).
 // What stays assumed (A-enc): what encoding_rs makes of those bytes.
 static mut CAP: [u8; 16] = [0; 16];
 static mut CAP_LEN: usize = usize::MAX;
 static mut CAP_CALLS: usize = 0;
 
-fn decode_stub<'a>(e: &'static Encoding, bytes: &'a [u8]) -> (Cow<'a, str>, &'static Encoding, bool) {
+fn decode_stub<'a>(e: &'static Encoding, bytes: &'a [u8]) -> (Cow<'a, str>, bool) {
     unsafe {
         CAP_CALLS += 1;
         CAP_LEN = bytes.len();
@@ -16,7 +16,7 @@ fn decode_stub<'a>(e: &'static Encoding, bytes: &'a [u8]) -> (Cow<'a, str>, &'st
             i += 1;
         }
     }
-    (Cow::Borrowed(""), e, false)
+    (Cow::Borrowed(""), false)
 }
 
 /// the four kinds of code page `high_byte(None)` distinguishes: UTF-16LE (BIFF8), single byte, UTF-8, multi-byte legacy
@@ -83,7 +83,7 @@ fn decode_to_case(k: u8, hb: Option<bool>, eff: Option<bool>) {
 }
 
 #[kani::proof]
-#[kani::stub(encoding_rs::Encoding::decode, decode_stub)]
+#[kani::stub(encoding_rs::Encoding::decode_without_bom_handling, decode_stub)]
 #[kani::unwind(14)]
 fn decode_to_wide() {
     let k: u8 = kani::any();
@@ -91,7 +91,7 @@ fn decode_to_wide() {
     decode_to_case(k, Some(true), Some(true));
 }
 #[kani::proof]
-#[kani::stub(encoding_rs::Encoding::decode, decode_stub)]
+#[kani::stub(encoding_rs::Encoding::decode_without_bom_handling, decode_stub)]
 #[kani::unwind(14)]
 fn decode_to_compressed() {
     let k: u8 = kani::any();
@@ -99,7 +99,7 @@ fn decode_to_compressed() {
     decode_to_case(k, Some(false), Some(false));
 }
 #[kani::proof]
-#[kani::stub(encoding_rs::Encoding::decode, decode_stub)]
+#[kani::stub(encoding_rs::Encoding::decode_without_bom_handling, decode_stub)]
 #[kani::unwind(14)]
 fn decode_to_default_raw() {
     // no flag byte (BIFF5 and older): single-byte code pages and UTF-8 are decoded from the raw bytes
@@ -108,7 +108,7 @@ fn decode_to_default_raw() {
     decode_to_case(k, None, None);
 }
 #[kani::proof]
-#[kani::stub(encoding_rs::Encoding::decode, decode_stub)]
+#[kani::stub(encoding_rs::Encoding::decode_without_bom_handling, decode_stub)]
 #[kani::unwind(14)]
 fn decode_to_default_wide() {
     // no flag byte, multi-byte code page: treated as compressed storage
